@@ -7,9 +7,12 @@ namespace BM4
 
 /-- `for_program`: buffer of `⌈(io + extra_cells)/8⌉` bytes, frame stacks of capacity
 `extra_frames + IO_EXTRA_FRAMES` -/
-def forProgram {a b : Ty} (t : Term a b) : M :=
+def forProgramC {a b : Ty} (t : Term a b) (c : Nat) : M :=
   { cells := fun _ => false, next := 0, read := [], write := [],
-    cap := 8 * ((a.bw + b.bw + extraCells t + 7) / 8), fcap := extraFrames t + 2 }
+    cap := c, fcap := extraFrames t + 2 }
+
+def forProgram {a b : Ty} (t : Term a b) : M :=
+  forProgramC t (8 * ((a.bw + b.bw + extraCells t + 7) / 8))
 
 /-- `input`: a read frame holding the padded encoding (none for zero-width sources) -/
 def input {a : Ty} (v : Val) (m : M) : Except Err M :=
@@ -28,56 +31,61 @@ def exec {a b : Ty} (t : Term a b) (m : M) : Except Err (List Bool) :=
     | [] => .error .crash
     | w :: _ => .ok (slice m'.cells w.start b.bw)
 
-def execProgram {a b : Ty} (t : Term a b) (v : Val) : Except Err (List Bool) := do
-  let m ← input (a := a) v (forProgram t)
+/-- the whole path on a machine with `c` cells -/
+def execProgramC {a b : Ty} (t : Term a b) (v : Val) (c : Nat) : Except Err (List Bool) := do
+  let m ← input (a := a) v (forProgramC t c)
   exec t m
 
-theorem cap_ge {a b : Ty} (t : Term a b) : a.bw + b.bw + extraCells t ≤ (forProgram t).cap := by
-  simp only [forProgram]; omega
+def execProgram {a b : Ty} (t : Term a b) (v : Val) : Except Err (List Bool) :=
+  execProgramC t v (8 * ((a.bw + b.bw + extraCells t + 7) / 8))
+
+theorem cap_ge {a b : Ty} (t : Term a b) :
+    a.bw + b.bw + extraCells t ≤ 8 * ((a.bw + b.bw + extraCells t + 7) / 8) := by
+  omega
 
 /-- after `input`, the machine holds the encoding at the start of its only read frame -/
-theorem input_spec {a b : Ty} (t : Term a b) (v : Val) (hv : HasTy v a) :
-    ∃ m, input (a := a) v (forProgram t) = .ok m ∧ m.next = a.bw ∧ m.write = [] ∧
-      m.cap = (forProgram t).cap ∧ m.fcap = extraFrames t + 2 ∧
+theorem input_spec {a b : Ty} (t : Term a b) (v : Val) (hv : HasTy v a)
+    (c : Nat) (hcap : a.bw + b.bw + extraCells t ≤ c) :
+    ∃ m, input (a := a) v (forProgramC t c) = .ok m ∧ m.next = a.bw ∧ m.write = [] ∧
+      m.cap = c ∧ m.fcap = extraFrames t + 2 ∧
       (a.bw = 0 → m.read = []) ∧ (a.bw ≠ 0 → m.read = [⟨0, 0, a.bw⟩]) ∧
       slice m.cells 0 a.bw = padded a v := by
-  have hcap := cap_ge t
   have hlen := (enc_padded hv).length
   unfold input
   by_cases h0 : a.bw = 0
   · rw [if_pos h0]
-    refine ⟨forProgram t, rfl, by simp [forProgram, h0], rfl, rfl, rfl, fun _ => rfl, fun h => absurd h0 h, ?_⟩
+    refine ⟨forProgramC t c, rfl, by simp [forProgramC, h0], rfl, rfl, rfl, fun _ => rfl, fun h => absurd h0 h, ?_⟩
     rw [h0]; simp only [slice]
     exact (List.eq_nil_of_length_eq_zero (by omega)).symm
   · rw [if_neg h0]
-    have hnw : newWrite a.bw (forProgram t) =
-        .ok { forProgram t with write := [⟨0, 0, a.bw⟩], next := a.bw } := by
+    have hnw : newWrite a.bw (forProgramC t c) =
+        .ok { forProgramC t c with write := [⟨0, 0, a.bw⟩], next := a.bw } := by
       unfold newWrite
-      rw [if_pos ⟨by simp only [forProgram] at hcap ⊢; omega, by simp [forProgram]⟩]
-      simp [forProgram]
+      rw [if_pos ⟨by simp only [forProgramC] at hcap ⊢; omega, by simp [forProgramC]⟩]
+      simp [forProgramC]
     rw [hnw, ok_bind]
     obtain ⟨m1, hr, h1, h2, h3, h4, h5⟩ := writeBits_spec (padded a v)
-      { forProgram t with write := [⟨0, 0, a.bw⟩], next := a.bw } ⟨0, 0, a.bw⟩ [] rfl
-      (by simp only [forProgram] at hcap ⊢; omega)
+      { forProgramC t c with write := [⟨0, 0, a.bw⟩], next := a.bw } ⟨0, 0, a.bw⟩ [] rfl
+      (by simp only [forProgramC] at hcap ⊢; omega)
     have hc1 := writeBits_caps _ hr
     rw [hr, ok_bind]
     refine ⟨{ m1 with write := [], read := [⟨0, 0, a.bw⟩] }, ?_, ?_, rfl, ?_, ?_, fun h => absurd h h0, fun _ => rfl, ?_⟩
-    · simp [moveWriteToRead, h3, h1]; simp [forProgram]
+    · simp [moveWriteToRead, h3, h1]; simp [forProgramC]
     · simp [h2]
-    · simp [hc1.1]
+    · show m1.cap = c; rw [hc1.1]; rfl
     · simp [hc1.2]; rfl
     · simp only []
       rw [← hlen]; exact h4
 
 /-- **C05 + C07, whole path**: on every value of the source type, the machine built by
 `for_program` never crashes and returns a padded encoding of `eval t v`, or fails iff `eval` fails -/
-theorem exec_spec {a b : Ty} (t : Term a b) (v : Val) (hv : HasTy v a) (hwt : WT t) :
+theorem exec_spec_cap {a b : Ty} (t : Term a b) (v : Val) (hv : HasTy v a) (hwt : WT t)
+    (c : Nat) (hcap : a.bw + b.bw + extraCells t ≤ c) :
     match eval t v with
-    | some out => ∃ bits, execProgram t v = .ok bits ∧ Enc b out bits
-    | none => execProgram t v = .error .fail := by
-  obtain ⟨m, hin, hnext, hwr, hcapm, hfcap, hr0, hr1, henc⟩ := input_spec t v hv
-  have hcap := cap_ge t
-  unfold execProgram
+    | some out => ∃ bits, execProgramC t v c = .ok bits ∧ Enc b out bits
+    | none => execProgramC t v c = .error .fail := by
+  obtain ⟨m, hin, hnext, hwr, hcapm, hfcap, hr0, hr1, henc⟩ := input_spec t v hv c hcap
+  unfold execProgramC
   rw [hin, ok_bind]
   have hrc : rcur m = 0 := by
     by_cases h0 : a.bw = 0
@@ -135,6 +143,26 @@ theorem exec_spec {a b : Ty} (t : Term a b) (v : Val) (hv : HasTy v a) (hwt : WT
       refine ⟨slice m'.cells a.bw b.bw, by simp [hw'], ?_⟩
       have := post.enc
       simpa [wcur, m1] using this
+
+/-- the machine as `for_program` sizes it (cells rounded up to whole bytes) -/
+theorem exec_spec {a b : Ty} (t : Term a b) (v : Val) (hv : HasTy v a) (hwt : WT t) :
+    match eval t v with
+    | some out => ∃ bits, execProgram t v = .ok bits ∧ Enc b out bits
+    | none => execProgram t v = .error .fail :=
+  exec_spec_cap t v hv hwt _ (cap_ge t)
+
+/-- **C07**: a machine with *exactly* `source + target + extra_cells` cells and `extra_frames + 2`
+frames never crashes (a cell or frame beyond the capacity is a crash in this model), on failing
+runs too: every execution stays within the static bounds plus the IO allowance. -/
+theorem exec_within_bounds {a b : Ty} (t : Term a b) (v : Val) (hv : HasTy v a) (hwt : WT t) :
+    execProgramC t v (a.bw + b.bw + extraCells t) ≠ .error .crash := by
+  have h := exec_spec_cap t v hv hwt (a.bw + b.bw + extraCells t) (Nat.le_refl _)
+  cases he : eval t v with
+  | none => rw [he] at h; simp only at h; rw [h]; intro hc; cases hc
+  | some out =>
+    rw [he] at h
+    obtain ⟨bits, hb, _⟩ := h
+    rw [hb]; intro hc; cases hc
 
 #print axioms exec_spec
 end BM4
